@@ -51,3 +51,123 @@ def _hmm_result(_hit_id, _query_start, _query_end, _evalue, _bitscore):
 
 
 REAL["HIT"] = _hmm_result
+
+
+# ---- NRPS/PKS modules (C14): objects put together field by field, so that every label of a counter-model
+# (also one outside all tables) can be represented; the methods that run are the real ones
+def _domain_hit(_hit_id, _internal_hits=(), _query_start=0, _query_end=30, _evalue=0.0, _bitscore=1.0):
+    from antismash.common.hmmscan_refinement import HMMResult
+    hit = HMMResult(_hit_id, _query_start, _query_end, _evalue, _bitscore)
+    hit._internal_hits = list(_internal_hits)  # pylint: disable=protected-access
+    return hit
+
+
+def _component(_domain, classification, locus):
+    from antismash.detection.nrps_pks_domains.module_identification import Component
+    comp = object.__new__(Component)
+    comp._domain = _domain  # pylint: disable=protected-access
+    comp.locus = locus
+    comp.classification = classification
+    return comp
+
+
+def _module(_components, _starter, _loader, _modifications, _carrier_protein, _end, _others, _first_in_cds,
+            _unambiguous_accept):
+    from antismash.detection.nrps_pks_domains.module_identification import Module
+    module = Module(first_in_cds=_first_in_cds)
+    module._components = list(_components)  # pylint: disable=protected-access
+    module._starter, module._loader = _starter, _loader  # pylint: disable=protected-access
+    module._modifications = list(_modifications)  # pylint: disable=protected-access
+    module._carrier_protein, module._end = _carrier_protein, _end  # pylint: disable=protected-access
+    module._others = list(_others)  # pylint: disable=protected-access
+    module._unambiguous_accept = _unambiguous_accept  # pylint: disable=protected-access
+    return module
+
+
+for _label in ("DomainHit", "DomainHitSub", "DomainHitWithSubtype", "InnerHit"):
+    REAL[_label] = _domain_hit
+REAL["Component"] = _component
+REAL["Module"] = _module
+
+
+# ---- regions of a record (C06): a real Record without genes and real Region objects reduced to their location
+def _simple_region(location, _children=()):
+    from antismash.common.secmet.features.region import Region
+    from antismash.common.secmet.features.cdscollection import _SectionedCDSCache
+    region = object.__new__(Region)
+    region.location = location
+    region.type = "region"
+    region.notes = []
+    region._qualifiers = {}  # pylint: disable=protected-access
+    region.created_by_antismash = True
+    region._children = list(_children)  # pylint: disable=protected-access
+    region._cdses = _SectionedCDSCache()  # pylint: disable=protected-access
+    region._parent_record = None  # pylint: disable=protected-access
+    region._parent = None  # pylint: disable=protected-access
+    region._contig_edge = False  # pylint: disable=protected-access
+    return region
+
+
+def _record_with_regions(_regions, _region_numbering, _verif_length, _record=None):
+    from Bio.Seq import Seq
+    from antismash.common.secmet import Record
+    record = Record(Seq("A" * max(int(_verif_length), 0)))
+    regions = list(_regions)
+    record._regions = regions  # pylint: disable=protected-access
+    # the numbering is keyed by the region objects themselves: rebuilt from the model's (location-keyed) entries
+    record._region_numbering = {region: index + 1 for index, region in enumerate(regions)}  # pylint: disable=protected-access
+    return record
+
+
+REAL["SimpleRegion"] = _simple_region
+REAL["SimpleCollection"] = _simple_region
+REAL["RecordWithRegions"] = _record_with_regions
+REAL["SeqRecordWithSeq"] = lambda seq=None: None
+
+
+# ---- areas and genes (C08): real objects reduced to the fields the verified functions read
+def _gene_location_only(location, gene_functions=None):
+    from antismash.common.secmet.features import CDSFeature
+    cds = object.__new__(CDSFeature)
+    cds.location = location
+    cds.type = "CDS"
+    cds.notes = []
+    cds._qualifiers = {}  # pylint: disable=protected-access
+    cds.created_by_antismash = False
+    cds.locus_tag, cds.gene, cds.protein_id = "gene", None, None
+    return cds
+
+
+def _area_without_children(location, _children=(), _cdses=None):
+    from antismash.common.secmet.features.cdscollection import CDSCollection, _SectionedCDSCache
+    area = object.__new__(CDSCollection)
+    area.location = location
+    area.type = "area"
+    area.notes = []
+    area._qualifiers = {}  # pylint: disable=protected-access
+    area.created_by_antismash = True
+    area._children = []  # pylint: disable=protected-access
+    area._cdses = _SectionedCDSCache()  # pylint: disable=protected-access
+    area._parent_record = None  # pylint: disable=protected-access
+    area._parent = None  # pylint: disable=protected-access
+    area._contig_edge = False  # pylint: disable=protected-access
+    return area
+
+
+REAL["GeneLocationOnly"] = _gene_location_only
+REAL["AreaWithoutChildren"] = _area_without_children
+
+
+def _plain_cache(_features=None, _cached=(), _dirty=False):
+    from antismash.common.secmet.features.cdscollection import _CDSCache
+    return _CDSCache()
+
+
+def _sectioned_cache(_features=None, _cached=(), _dirty=False, _pre_origin=None, _cross_origin=None, _post_origin=None):
+    from antismash.common.secmet.features.cdscollection import _SectionedCDSCache
+    return _SectionedCDSCache()
+
+
+for _label in ("PreOrigin", "CrossOrigin", "PostOrigin"):
+    REAL[_label] = _plain_cache
+REAL["SectionedCache"] = _sectioned_cache
